@@ -82,7 +82,7 @@ HARNESSES = [
       assumptions=['size vectors with last entry 0: utils.check_data_consistency replaced by a stand-in that returns a '
                    'copy with the four required columns (its contract is decided by C15); last entry 1: the real checker runs'],
       doc='real run() + metar_msg() for every accepted table of the size: no exception of any kind'),
-    H('H-group', h_group, quick=[('0', 0), ('01', 0), ('00', 0), ('012', 0), ('001', 0), ('0012', 0), ('0122', 0)],
+    H('H-group', h_group, quick=[('0', 0), ('01', 0), ('00', 0), ('012', 0), ('001', 0), ('0012', 0), ('0122', 0), ('g012', 0)],
       thorough=[(sh, p) for sh in ('0', '01', '00', '012', '001', '011', '0012', '0122', '0112', '0123') for p in (0, 3)],
       float_model='R', cover=['a bundle of overlapping slices', 'an isolated slice', 'a bundle left with a single one-hit slice'],
       assumptions=['H-group: state after slicing constructed directly (one ceilometer, type 1, times increasing with the row '
